@@ -54,3 +54,24 @@ package ports
 
 //@ interface StatsCollector.RecordRequest
 //@ interface StatsCollector.RecordModelRequest
+
+// ---- C17: the security chain as seen by the production wiring
+//@ ghost var secCount int
+//@ ghost var lastSecClientID string
+//@ ghost var lastSecAllowed bool
+//@ ghost var lastSecRetryAfter int
+//@ ghost var lastSecReason string
+//@ ghost var lastSecErr error
+//@ interface SecurityValidator.Validate
+
+//@ func (sc *SecurityChain) Validate
+//@   property C17
+//@   loop 1 invariant true
+//@   records secCount = old(secCount) + 1
+//@   records lastSecClientID = req.ClientID
+//@   records lastSecAllowed = res0.Allowed
+//@   records lastSecRetryAfter = res0.RetryAfter
+//@   records lastSecReason = res0.Reason
+//@   records lastSecErr = res1
+//@   ensures true
+//@ interface SecurityMetricsService.RecordViolation
